@@ -138,6 +138,15 @@ func c08Rules(tier string) []Rule {
 		}},
 
 		// ---- who marks / unmarks, who writes the queue map
+		// the mark / unmark helpers handle every id of the batch (no early exit on a missing node)
+		DOM{ID: "C08.LOOP1", Fn: "(*state.Cluster).UnmarkForDeletion", Sink: `^return`, Shallow: true, Gates: gates(G(`-^\(phi\(.*\) \+ 1\) < len\(\$1\)$`)), Note: "returns only after the loop over all provider ids is exhausted"},
+		DOM{ID: "C08.LOOP2", Fn: "(*state.Cluster).MarkForDeletion", Sink: `^return`, Shallow: true, Gates: gates(G(`-^\(phi\(.*\) \+ 1\) < len\(\$1\)$`))},
+		POST{ID: "C08.POST4", Fn: "(*state.Cluster).UnmarkForDeletion", FromLit: `+^\$0\.nodes\[\$1\[.*\]\]#1$`, Must: []string{`^store \$0\.nodes\[\$1\[.*\]\]#0\.markedForDeletion = false$`}, Note: "every known id is unmarked"},
+		POST{ID: "C08.POST5", Fn: "(*state.Cluster).MarkForDeletion", FromLit: `+^\$0\.nodes\[\$1\[.*\]\]#1$`, Must: []string{`^store \$0\.nodes\[\$1\[.*\]\]#0\.markedForDeletion = true$`}, Note: "every known id is marked"},
+		POST{ID: "C08.POST6", Fn: "(*state.Cluster).UnmarkForDeletion", From: `^store \$0\.nodes\[\$1\[.*\]\]#0\.markedForDeletion = false$`,
+			Must: []string{`^call \(\*state\.NodePoolState\)\.MarkNodeClaimActive\(\$0\.NodePoolState, `},
+			Excuse: []string{`+^\$0\.nodes\[\$1\[.*\]\]#0\.NodeClaim == nil$`, `-^\(\*metav1\.Time\)\.IsZero\(\$0\.nodes\[\$1\[.*\]\]#0\.NodeClaim\.ObjectMeta\.DeletionTimestamp\)$`},
+			Note: "an unmarked, not-deleting NodeClaim counts as active again in the NodePool state"},
 		WMC{ID: "C08.WMC1a", Sink: `^(call|go|defer) \(\*state\.Cluster\)\.MarkForDeletion\(`, Allowed: []string{start}, Required: []string{start}},
 		WMC{ID: "C08.WMC1b", Sink: `^(call|go|defer) \(\*state\.Cluster\)\.UnmarkForDeletion\(`, Allowed: []string{comp}, Required: []string{comp}},
 		WMC{ID: "C08.WMC1c", Sink: `^mapupdate \S*\.ProviderIDToCommand\[|^call delete\(\S*\.ProviderIDToCommand, |^store \S*\.ProviderIDToCommand = `,
